@@ -55,28 +55,28 @@ axiom('word', 'lemma', 'isprefix-over', ForAll([_u, _w, _S], Implies(And(isprefi
 axiom('word', 'lemma', 'isprefix-len', ForAll([_u, _w], Implies(isprefix(_u, _w), wlen(_u) <= wlen(_w))))
 axiom('word', 'lemma', 'isprefix-len-eq', ForAll([_u, _w], Implies(And(isprefix(_u, _w), wlen(_u) == wlen(_w)), _u == _w)))
 axiom('word', 'lemma', 'isprefix-nil', ForAll([_w], isprefix(Word.nil, _w)))
-axiom('word', 'def', 'app-nil', ForAll([_u], app(_u, Word.nil) == _u))
-axiom('word', 'def', 'app-snoc', ForAll([_u, _v, _a], app(_u, Word.snoc(_v, _a)) == Word.snoc(app(_u, _v), _a)))
-axiom('word', 'def', 'cons', ForAll([_a, _w], cons(_a, _w) == app(Word.snoc(Word.nil, _a), _w)))
-axiom('word', 'lemma', 'app-len', ForAll([_u, _v], wlen(app(_u, _v)) == wlen(_u) + wlen(_v)))
-axiom('word', 'lemma', 'app-nil-left', ForAll([_u], app(Word.nil, _u) == _u))
-axiom('word', 'def', 'at-snoc', ForAll([_w, _a, _i], at(Word.snoc(_w, _a), _i) == If(_i == wlen(_w), _a, at(_w, _i))))
+axiom('wordx', 'def', 'app-nil', ForAll([_u], app(_u, Word.nil) == _u))
+axiom('wordx', 'def', 'app-snoc', ForAll([_u, _v, _a], app(_u, Word.snoc(_v, _a)) == Word.snoc(app(_u, _v), _a)))
+axiom('wordx', 'def', 'cons', ForAll([_a, _w], cons(_a, _w) == app(Word.snoc(Word.nil, _a), _w)))
+axiom('wordx', 'lemma', 'app-len', ForAll([_u, _v], wlen(app(_u, _v)) == wlen(_u) + wlen(_v)))
+axiom('wordx', 'lemma', 'app-nil-left', ForAll([_u], app(Word.nil, _u) == _u))
+axiom('wordx', 'def', 'at-snoc', ForAll([_w, _a, _i], at(Word.snoc(_w, _a), _i) == If(_i == wlen(_w), _a, at(_w, _i))))
 # take / drop by the snoc structure of the word
-axiom('word', 'def', 'take-nil', ForAll([_k], take(_k, Word.nil) == Word.nil))
-axiom('word', 'def', 'take-snoc', ForAll([_k, _w, _a], take(_k, Word.snoc(_w, _a)) == If(_k > wlen(_w), Word.snoc(_w, _a), take(_k, _w))))
-axiom('word', 'def', 'drop-nil', ForAll([_k], drop(_k, Word.nil) == Word.nil))
-axiom('word', 'def', 'drop-snoc', ForAll([_k, _w, _a], drop(_k, Word.snoc(_w, _a)) == If(_k > wlen(_w), Word.nil, Word.snoc(drop(_k, _w), _a))))
-axiom('word', 'lemma', 'take-len', ForAll([_k, _w], Implies(And(0 <= _k, _k <= wlen(_w)), wlen(take(_k, _w)) == _k)))
-axiom('word', 'lemma', 'drop-len', ForAll([_k, _w], Implies(And(0 <= _k, _k <= wlen(_w)), wlen(drop(_k, _w)) == wlen(_w) - _k)))
-axiom('word', 'lemma', 'take-all', ForAll([_k, _w], Implies(_k >= wlen(_w), take(_k, _w) == _w)))
-axiom('word', 'lemma', 'drop-zero', ForAll([_k, _w], Implies(_k <= 0, drop(_k, _w) == _w)))
-axiom('word', 'lemma', 'take-drop-app', ForAll([_k, _w], app(take(_k, _w), drop(_k, _w)) == _w))
-axiom('word', 'lemma', 'take-over', ForAll([_k, _w, _S], Implies(over(_S, _w), over(_S, take(_k, _w)))))
-axiom('word', 'lemma', 'drop-over', ForAll([_k, _w, _S], Implies(over(_S, _w), over(_S, drop(_k, _w)))))
-axiom('word', 'lemma', 'take-app', ForAll([_u, _v], take(wlen(_u), app(_u, _v)) == _u))
-axiom('word', 'lemma', 'drop-app', ForAll([_u, _v], drop(wlen(_u), app(_u, _v)) == _v))
-axiom('word', 'def', 'rev-nil', rev(Word.nil) == Word.nil)
-axiom('word', 'def', 'rev-snoc', ForAll([_w, _a], rev(Word.snoc(_w, _a)) == cons(_a, rev(_w))))
+axiom('wordx', 'def', 'take-nil', ForAll([_k], take(_k, Word.nil) == Word.nil))
+axiom('wordx', 'def', 'take-snoc', ForAll([_k, _w, _a], take(_k, Word.snoc(_w, _a)) == If(_k > wlen(_w), Word.snoc(_w, _a), take(_k, _w))))
+axiom('wordx', 'def', 'drop-nil', ForAll([_k], drop(_k, Word.nil) == Word.nil))
+axiom('wordx', 'def', 'drop-snoc', ForAll([_k, _w, _a], drop(_k, Word.snoc(_w, _a)) == If(_k > wlen(_w), Word.nil, Word.snoc(drop(_k, _w), _a))))
+axiom('wordx', 'lemma', 'take-len', ForAll([_k, _w], Implies(And(0 <= _k, _k <= wlen(_w)), wlen(take(_k, _w)) == _k)))
+axiom('wordx', 'lemma', 'drop-len', ForAll([_k, _w], Implies(And(0 <= _k, _k <= wlen(_w)), wlen(drop(_k, _w)) == wlen(_w) - _k)))
+axiom('wordx', 'lemma', 'take-all', ForAll([_k, _w], Implies(_k >= wlen(_w), take(_k, _w) == _w)))
+axiom('wordx', 'lemma', 'drop-zero', ForAll([_k, _w], Implies(_k <= 0, drop(_k, _w) == _w)))
+axiom('wordx', 'lemma', 'take-drop-app', ForAll([_k, _w], app(take(_k, _w), drop(_k, _w)) == _w))
+axiom('wordx', 'lemma', 'take-over', ForAll([_k, _w, _S], Implies(over(_S, _w), over(_S, take(_k, _w)))))
+axiom('wordx', 'lemma', 'drop-over', ForAll([_k, _w, _S], Implies(over(_S, _w), over(_S, drop(_k, _w)))))
+axiom('wordx', 'lemma', 'take-app', ForAll([_u, _v], take(wlen(_u), app(_u, _v)) == _u))
+axiom('wordx', 'lemma', 'drop-app', ForAll([_u, _v], drop(wlen(_u), app(_u, _v)) == _v))
+axiom('wordx', 'def', 'rev-nil', rev(Word.nil) == Word.nil)
+axiom('wordx', 'def', 'rev-snoc', ForAll([_w, _a], rev(Word.snoc(_w, _a)) == cons(_a, rev(_w))))
 
 
 def _sv_word(z): return SV(WORD, z)
@@ -216,9 +216,10 @@ def s_nfa_wf(ev, N):
 
 @spec('lookup')
 def s_lookup(ev, m, k):
-    """m.get(k, default) for a map with a default (total view)"""
-    if m.t.args[2] == 'set' or m.t.args[1].kind == 'set':
-        return SV(m.t.args[1], If(Select(map_dom(m), k.z), Select(map_val(m), k.z), z3.K(sort_of(m.t.args[1].args[0]), z3.BoolVal(False))))
+    """m.get(k, set()) for a map of sets (total view); stated through the `view` function so that it can serve as a trigger"""
+    from . import sets as S
+    if m.t.args[1].kind == 'set':
+        return SV(m.t.args[1], Select(S.view(m), k.z))
     raise TypeError('lookup')
 
 
@@ -395,3 +396,68 @@ for _nm, _tst in [('is_zero', RXd.is_Zero), ('is_one', RXd.is_One), ('is_sym', R
 
 @spec('tm_accepted')
 def s_tm_accepted(ev, Tm, w, k): return SV(BOOL, run_q(Tm.z, w.z, k.z) == rec_get(Tm, 'q_accept').z)
+
+
+# ====================================================================== DFA constructions (C14)
+@spec('dfa_pwf')
+def s_dfa_pwf(ev, D):
+    """partial DFA (constructed with check_validity=False): everything of dfa_wf except totality"""
+    Q, Sg, dl, q0, F = [rec_get(D, f) for f in ('Q', 'Sigma', 'delta', 'q0', 'F')]
+    dom, val = map_dom(dl), map_val(dl)
+    x, y = fresh_z('x', Atom), fresh_z('y', Atom); k = mkKey2(x, y)
+    return SV(BOOL, And(Select(Q.z, q0.z), ForAll([x], Implies(Select(F.z, x), Select(Q.z, x))),
+                        ForAll([x, y], Implies(Select(dom, k), And(Select(Q.z, x), Select(Sg.z, y), Select(Q.z, Select(val, k)))))))
+
+
+Reach = Function('Reach', DeltaD, SetA, Atom, SetA)        # (delta, Sigma, q): states reachable from q by >= 0 steps (least fixpoint)
+Reach1 = Function('Reach1', DeltaD, SetA, Atom, SetA)      # by >= 1 steps
+axiom('dfa', 'lfp', 'Reach-refl', ForAll([_d, _S, _q], Select(Reach(_d, _S, _q), _q)))
+axiom('dfa', 'lfp', 'Reach-step', ForAll([_d, _S, _q, _p, _a], Implies(And(Select(Reach(_d, _S, _q), _p), Select(_S, _a)), Select(Reach(_d, _S, _q), Select(_d, mkKey2(_p, _a))))))
+axiom('dfa', 'lfp', 'Reach1-first', ForAll([_d, _S, _q, _a], Implies(Select(_S, _a), Select(Reach1(_d, _S, _q), Select(_d, mkKey2(_q, _a))))))
+axiom('dfa', 'lfp', 'Reach1-step', ForAll([_d, _S, _q, _p, _a], Implies(And(Select(Reach1(_d, _S, _q), _p), Select(_S, _a)), Select(Reach1(_d, _S, _q), Select(_d, mkKey2(_p, _a))))))
+
+
+def Reach_least(d, Sg, q, Tt, plus):
+    """leastness instance: every set that contains the seed(s) and is closed under delta contains Reach / Reach1"""
+    x, a = fresh_z('x', Atom), fresh_z('a', Atom)
+    seed = ForAll([a], Implies(Select(Sg, a), Select(Tt, Select(d, mkKey2(q, a))))) if plus else Select(Tt, q)
+    closed = ForAll([x, a], Implies(And(Select(Tt, x), Select(Sg, a)), Select(Tt, Select(d, mkKey2(x, a)))))
+    R = Reach1(d, Sg, q) if plus else Reach(d, Sg, q)
+    return Implies(And(seed, closed), ForAll([x], Implies(Select(R, x), Select(Tt, x))))
+
+
+@spec('Reach')
+def s_Reach(ev, D, q): return SV(SET(ATOM), Reach(dfa_delta_val(D), rec_get(D, 'Sigma').z, q.z))
+@spec('Reach1')
+def s_Reach1(ev, D, q): return SV(SET(ATOM), Reach1(dfa_delta_val(D), rec_get(D, 'Sigma').z, q.z))
+@spec('Reach_least')
+def s_Reach_least(ev, D, q, Tt): return SV(BOOL, Reach_least(dfa_delta_val(D), rec_get(D, 'Sigma').z, q.z, Tt.z, False))
+@spec('Reach1_least')
+def s_Reach1_least(ev, D, q, Tt): return SV(BOOL, Reach_least(dfa_delta_val(D), rec_get(D, 'Sigma').z, q.z, Tt.z, True))
+
+_d2 = Const('d2', DeltaD)
+axiom('dfa', 'lemma', 'restrict-sim', ForAll([_d, _d2, _S, _q, _w], Implies(And(ForAll([_x, _a], Implies(And(Select(Reach(_d, _S, _q), _x), Select(_S, _a)), Select(_d2, mkKey2(_x, _a)) == Select(_d, mkKey2(_x, _a)))), over(_S, _w)),
+                                                                            And(dhat(_d2, _q, _w) == dhat(_d, _q, _w), Select(Reach(_d, _S, _q), dhat(_d, _q, _w))))))
+
+
+@spec('set_empty')
+def s_set_empty(ev): return empty_set(ATOM)
+
+
+def prod_struct(D1, D2, R):
+    x, y, a = fresh_z('x', Atom), fresh_z('y', Atom), fresh_z('a', Atom)
+    return And(s_dfa_wf(None, D1).z, s_dfa_wf(None, D2).z, rec_get(D1, 'Sigma').z == rec_get(D2, 'Sigma').z,
+               ForAll([x, y, a], Implies(And(Select(rec_get(D1, 'Q').z, x), Select(rec_get(D2, 'Q').z, y), Select(rec_get(D1, 'Sigma').z, a)),
+                                         Select(dfa_delta_val(R), mkKey2(pair_name(x, y), a)) == pair_name(Select(dfa_delta_val(D1), mkKey2(x, a)), Select(dfa_delta_val(D2), mkKey2(y, a))))))
+
+
+_D1, _D2, _DR = Consts('D1 D2 DR', sort_of(REC('DFA')))
+def _prod_sim():
+    D1, D2, R = [SV(REC('DFA'), z_) for z_ in (_D1, _D2, _DR)]
+    return ForAll([_D1, _D2, _DR, _x, _y, _w], Implies(And(prod_struct(D1, D2, R), Select(rec_get(D1, 'Q').z, _x), Select(rec_get(D2, 'Q').z, _y), over(rec_get(D1, 'Sigma').z, _w)),
+                                                       dhat(dfa_delta_val(R), pair_name(_x, _y), _w) == pair_name(dhat(dfa_delta_val(D1), _x, _w), dhat(dfa_delta_val(D2), _y, _w))))
+axiom('dfa', 'lemma', 'product-sim', _prod_sim())
+
+
+@spec('prod_struct')
+def s_prod_struct(ev, D1, D2, R): return SV(BOOL, prod_struct(D1, D2, R))
